@@ -16,7 +16,7 @@ import re
 import mp_common as M
 
 LEVEL = "proof"
-EXTRA_PROPERTIES = ["C01mp", "C01s", "C01jx"]     # MsgPack typed load/save round trip (mpscope family), JSON / XML adapter round trip (jx family)
+EXTRA_PROPERTIES = ["C01mp", "C01s", "C01jx", "C01enum"]     # MsgPack typed load/save round trip (mpscope family), JSON / XML adapter round trip (jx family), enum <-> name conversion (enum family)
 TRUSTED_BASE = [
     "Coq 8.16.1 kernel incl. vm_compute; theorems of coq/Properties_C01.v (assumptions printed per theorem in this evidence)",
     "the models are tied to /repo by the correspondences of their own families, run by the checks C06/C07 (MsgPack writer, reader, typed save), C09 (CSV), C13/C11 (encoded streams, UTF), C16 (number text), C08 (JSON/XML adapters); C01 does not repeat them",
@@ -24,6 +24,8 @@ TRUSTED_BASE = [
     "harness/drv_rt.cpp (generators, equality: bit patterns for float/double in MsgPack; any-NaN = any-NaN in the text formats), built from /repo's working tree with -fsanitize=address,undefined",
     "independent re-renderers for the load-save-load half: props/mp_common.py (MessagePack encoder with random format widths), python json / xml.dom.minidom, a CSV re-quoter in this file",
 ]
+import C01enum as _C01enum
+TRUSTED_BASE = TRUSTED_BASE + list(_C01enum.TRUSTED_BASE_ENUM)
 ASSUMPTIONS = [
     "values restricted to what the format can carry (property text): no NUL in text, XML 1.0 Char and XML names as map keys in XML, finite floats in the text formats unless the save throws, CSV = non-empty flat table of a class with scalar members",
     "platform x86-64 Linux, GCC 12, wchar_t 32 bit",
@@ -269,7 +271,7 @@ def run(ctx, vlib):
                                   why="listed known finding %s no longer reproduces as recorded" % fid))
     # known findings outside the feature scheme (fixed witness only)
     for fid, k in sorted(kn.items()):
-        if fid in KNOWN_CLASSES or not k.get("case"):
+        if fid in KNOWN_CLASSES or not k.get("case") or k.get("driver") == "enum":
             continue
         wo = vlib.run_driver(impl, [k["case"]], jobs=1)[0]
         evaluations += 1
@@ -302,6 +304,17 @@ def run(ctx, vlib):
     diffs += ml.get("diffs", [])
     for k, v in ml.get("classes", {}).items():
         classes["mpload " + k] = v
+    # (6) enums: the extracted model of convert_enum.h (registry lookups, the four string widths, enum members and enum map keys
+    #     through MsgPack / JSON) against the implementation, registries dumped from the implementation itself (enum family)
+    import C01enum
+    en = C01enum.run_enum(ctx, vlib)
+    evaluations += en.get("evaluations", 0)
+    nt += en.get("distinct_nontrivial", 0)
+    failing += [f for f in en.get("failing", [])][: max(0, 20 - len(failing))]
+    diffs += en.get("diffs", [])
+    known_lines += en.get("known_lines", [])
+    for k, v in en.get("classes", {}).items():
+        classes["enum " + k] = v
     samples = [dict(case=clean[i][:200], outcome="OK") for i in (0, len(clean) // 2, len(clean) - 1)]
     return dict(evaluations=evaluations, distinct_nontrivial=nt, samples=samples, classes=classes, failing=failing, diffs=diffs,
                 known_lines=known_lines, extra=dict(lsl_documents=kinds),
@@ -313,6 +326,9 @@ def replay(rp, vlib):
     if rp.get("driver") == "mpload" or str(rp.get("case", "")).startswith("ld "):
         import C01mp
         return C01mp.replay_mpload(rp, vlib)
+    if rp.get("driver") == "enum":
+        import C01enum
+        return C01enum.replay_enum(rp, vlib)
     impl = drivers(vlib)
     o = vlib.run_driver(impl, [rp["case"]], jobs=1)[0]
     return dict(case=rp["case"], implementation=o, holds=ok_answer(o) or o.startswith("REJECT-EXC:"))
